@@ -1,7 +1,7 @@
 import CruxVerif.Spec.Mw
 import CruxVerif.Util.Hex
 /-! Line protocol of the `mw` engine (C16); grammar in harness/src/bin/mw.rs.
-  case : `<api> <method> <url> <body> <hdrs> mw <n> <item>* srv <n> <row>* ops <n> <entry>*`
+  case : `<api> <method> <url> <body> <hdrs> cmw <n> <item>* mw <n> <item>* srv <n> <row>* ops <n> <entry>*`
   out  : `t <n> <ev>* out <outcome>` -/
 namespace Driver.Mw
 open M.Mw Util
@@ -13,6 +13,7 @@ def repoHasRedirectFix : Bool := false
 structure Case where
   api : Api
   req : Req
+  client : List Mw
   stack : List Mw
   rows : List (Url × Res)
   parses : List (String × PRes)
@@ -89,21 +90,26 @@ def parseOps : Nat → List String → Case → Option (Case × List String)
 
 def parseCase (line : String) : Option Case :=
   match line.splitOn " " with
-  | api :: method :: url :: body :: hdrs :: "mw" :: n :: rest => do
+  | api :: method :: url :: body :: hdrs :: "cmw" :: n :: rest => do
     let api ← match api with
       | "send" => some Api.send | "async" => some Api.async | "cmd" => some Api.cmd | _ => none
     let body ← ofHex body
     let headers ← parseHeaders hdrs
     if !headersOk headers then none else
-    let (stack, rest) ← parseMws (← n.toNat?) rest
+    let (client, rest) ← parseMws (← n.toNat?) rest
+    if api == .cmd && !client.isEmpty then none else   -- the command API has no client
     match rest with
-    | "srv" :: n :: rest => do
-      let (rows, rest) ← parseRows (← n.toNat?) rest
+    | "mw" :: n :: rest => do
+      let (stack, rest) ← parseMws (← n.toNat?) rest
       match rest with
-      | "ops" :: n :: rest => do
-        let c : Case := { api, req := ⟨method, url, headers, body⟩, stack, rows, parses := [], joins := [] }
-        let (c, rest) ← parseOps (← n.toNat?) rest c
-        if rest.isEmpty then some c else none
+      | "srv" :: n :: rest => do
+        let (rows, rest) ← parseRows (← n.toNat?) rest
+        match rest with
+        | "ops" :: n :: rest => do
+          let c : Case := { api, req := ⟨method, url, headers, body⟩, client, stack, rows, parses := [], joins := [] }
+          let (c, rest) ← parseOps (← n.toNat?) rest c
+          if rest.isEmpty then some c else none
+        | _ => none
       | _ => none
     | _ => none
   | _ => none
@@ -170,7 +176,7 @@ def model (line : String) : String :=
   match parseCase line with
   | none => "bad-case"
   | some c =>
-    let o := runCase c.world repoHasRedirectFix c.api [] c.stack c.req
+    let o := runCase c.world repoHasRedirectFix c.api c.client c.stack c.req
     if hasMissing o then "bad-case" else showObs o
 
 def oracle (line : String) : String :=
@@ -179,12 +185,12 @@ def oracle (line : String) : String :=
     match parseCase cs with
     | none => "bad-case"
     | some c =>
-      if hasMissing (S.Mw.expected c.world c.api [] c.stack c.req) then "bad-case" else
+      if hasMissing (S.Mw.expected c.world c.api c.client c.stack c.req) then "bad-case" else
       match parseObs os with
       | none => "reject unparseable-observation"
       | some o =>
-        if S.Mw.ok c.world c.api [] c.stack c.req o then "ok"
-        else "reject " ++ S.Mw.rejectKey c.world c.rels c.api [] c.stack c.req o
+        if S.Mw.ok c.world c.api c.client c.stack c.req o then "ok"
+        else "reject " ++ S.Mw.rejectKey c.world c.rels c.api c.client c.stack c.req o
   | _ => "bad-case"
 
 end Driver.Mw
